@@ -858,6 +858,15 @@ fn run_history_inner<KK: KeyKind>(ctx: &mut Ctx, h: &History, opts: &RunOpts) ->
         match &res {
             Err(e) => {
                 let kind = err_kind(e);
+                // the error value itself is part of the API: Display, Debug, source() and Clone/Eq on it
+                // (an abort here is attributed by the supervisor to this history)
+                if let Err(p) = guard(|| {
+                    use std::error::Error as _;
+                    let _ = (format!("{e}"), format!("{e:?}"), format!("{e:#?}"), e.source().map(|s| s.to_string()), e.clone() == *e);
+                }) {
+                    ctx.violate("C03", "panic", &format!("Error-format/{}", panic_sig(&p)), || format!("formatting Err({kind}) panicked: {p}"), &replay);
+                }
+                ctx.count("c03.error-values-formatted");
                 stats.err_steps += 1;
                 ctx.count(&format!("op.{opn}.err.{kind}"));
                 for c in &pred.must {
